@@ -17,7 +17,7 @@ CHECKS = {
          "Trusts the recorded call log (arguments as received by the Go callables). Non-integral numeric arguments to int parameters are not generated.",
          "DESIGN.md 3/C14"),
  "C06": ("reference-resolver monitor: generated access paths into generated Go data graphs (unique leaf tokens) resolved by plain reflect following Go's rules and compared with what the template renders",
-         "Exploration: random walks of 1-6 steps (field, bracket, index with literal/variable, key, slice, method call) over a graph covering every data shape the property names, rooted at a pointer, a value, the context, a struct type minted at run time (fresh field cache) or an interface container; half the paths get one step corrupted at a random depth; all index values in [-1,len+1] and all slice bound pairs in [-1,len+2]^2 are enumerated for every sequence field. Value -> rendered leaf token equals the stored one; nil -> empty/<nil>; error -> Execute returns an error without panicking.",
+         "Exploration: random walks of 1-6 steps (field, bracket, index with literal/variable, key, slice, method call) over a graph covering every data shape the property names, rooted at a pointer, a value, the context, a struct type minted at run time (fresh field cache) or an interface container; half the paths get one step corrupted at a random depth; all index values in [-1,len+1] and all slice bound pairs in [-1,len+2]^2 are enumerated for every sequence field. Value -> rendered leaf token equals the stored one; nil -> empty/<nil>; error -> Execute returns an error without panicking. A directed probe reaches for a name promoted from two embedded structs at one depth (no field: must fail by dot, bracket, through pointer and interface, from a cold and a warm field cache) and for the unambiguous members beside it.",
          "Trusts reflect (FieldByName depth rule, method sets, MapIndex, bounds) as the definition of the stored value. Shapes the statement leaves open are discarded and counted; indexing the result of a slice expression is not expressible in jet's grammar.",
          "DESIGN.md 3/C06"),
  "C17": ("reference-resolver monitor for isset() and the two-value map lookup over the data graphs and access paths of C06",
@@ -25,7 +25,7 @@ CHECKS = {
          "isset arguments are limited to the expression kinds the documentation names (identifier, field, chain, index).",
          "DESIGN.md 3/C17"),
  "C04": ("typed reference evaluator + probe call log over generated expression trees, each rendered in four surface forms (minimal parentheses, no spaces, and/or/not, redundant parentheses)",
-         "Exploration: type-directed random trees (depth <=5) over every operator family and operand kind (float literals, Go ints of several widths, uint on the right, float32/64, strings, bools, calls, index expressions), printed with only the parentheses the documented ladder needs; value, cross-form equality and the order/multiplicity of side-effecting probe operands must match the model; 6 directed cases pin the documented examples.",
+         "Exploration: type-directed random trees (depth <=5) over every operator family and operand kind (float literals, Go ints of several widths, uint on the right (and, in a directed case, uint/uint8/uint64 on the left of a floating-point operand), float32/64, strings, bools, calls, index expressions), printed with only the parentheses the documented ladder needs; value, cross-form equality and the order/multiplicity of side-effecting probe operands must match the model; 6 directed cases pin the documented examples.",
          "Trusts the 150-line typed evaluator. Shapes the statement does not type (% with non-integral operands, int==non-integral float, division by zero, unsigned left operands with negative values, asymmetric spacing) are not generated or are discarded and counted.",
          "DESIGN.md 3/C04"),
  "C10": ("history monitor with fresh-state reference: every Execute of a history on one locked OS thread (pooled Runtime provably reused) compared with the same call executed right after draining the pools; reflective hash of every parsed template before/after",
